@@ -775,7 +775,10 @@ def errcCase : P String := do
     let kind ← nat
     let (ty, present) := match kind with
       | 0 => (PropType.double, true) | 1 => (.double, false) | 2 => (.string, false) | 3 => (.bool, false)
-      | 4 => (.int, false) | _ => (.unsupported, true)
+      | 4 => (.int, false) | 5 => (.unsupported, true)
+      -- the key exists under another value type: the map of the type asked for does not have it
+      | 6 => (.double, false) | 7 => (.string, false) | 8 => (.int, false) | 9 => (.double, false) | 10 => (.bool, false)
+      | _ => (.unsupported, true)
     pure (okOr ((getPropertyCheck ty present).map fun _ => if kind == 0 then s!"errc ok {showF 0.05}" else "errc ok"))
   | "ragged" => do
     let _L ← nat; let rows ← nat
